@@ -12,7 +12,7 @@ From LZ4V Require Import Gen.Consts Spec.BlockSpec Model.Mem Model.Fast Model.Fa
 From LZ4V Require Import Model.HcEmit Model.HcMid Model.HcMidStream Proofs.HcMidStreamProofs Proofs.HcMidStreamHist.
 From LZ4V Require Import Model.HcChain Model.HcChainApi Model.HcChainStream Proofs.HcChainStreamProofs Proofs.HcChainStreamHist.
 From LZ4V Require Import Model.HcOpt Model.HcOptApi Model.HcTabStream Model.HcOptStream Proofs.HcTabStreamProofs Proofs.HcOptStreamProofs.
-From LZ4V Require Import Proofs.FastStreamMem Proofs.FrameCExamples Proofs.FrameCTheorems Proofs.FrameRoundTrip Proofs.BlkInst.
+From LZ4V Require Import Proofs.FastStreamMem Proofs.FrameCExamples Proofs.FrameCTheorems Proofs.FrameRoundTrip Proofs.BlkInst Proofs.ParserBytesStream.
 Import ListNotations.
 Local Open Scope Z_scope.
 
@@ -46,7 +46,7 @@ Proof.
   set (lim := if len x - 1 <? compressBound (len x) then LimitedOutput else NotLimited).
   assert (Hlim : lim <> FillOutput) by (subst lim; destruct (len x - 1 <? compressBound (len x)); discriminate).
   destruct (ts_continue_generic blk_all lvl_all (ho_m (st n)) (ho_c (st n)) (ho_src (st n)) (len x) (len x - 1) lim) as [[ret consumed out hw c']|] eqn:E; [|discriminate].
-  intros H. destruct (blk_out_some _ _ _ H) as (Hp & -> & _).
+  intros H. destruct (blk_out_some _ _ _ H) as (Hp & ->).
   destruct (os_continue_generic_sound (ho_m (st n)) (ho_c (st n)) (ho_src (st n)) (len x) (len x - 1) lim ret consumed out hw c'
               O1 O2 O3 O4 ltac:(lia) ltac:(lia) E) as (ke & cte & He & Hr & _ & _ & Hpost).
   pose proof (ts_call_decodes (ho_m (st n)) ke (ho_src (st n)) (len x) (len x - 1) lim ret consumed out hw c' (ho_H (st n))
@@ -57,12 +57,15 @@ Proof.
   rewrite Gh. unfold lastZ, FC_64KB. exact HV.
 Qed.
 
-Theorem blk_hc_linked_bytes st : blk_bytes (blk_hc_linked st).
+Theorem blk_hc_linked_bytes st : (forall n, horc_ok (st n)) -> blk_bytes (blk_hc_linked st).
 Proof.
-  intros n h x c. unfold blk_hc_linked. cbv zeta.
-  destruct (blk_guard x && horc_consistent (st n) h x); [|discriminate].
-  destruct (os_continue _ _ _ _ _) as [[ret consumed out hw c']|]; [|discriminate].
-  intros H. destruct (blk_out_some _ _ _ H) as (_ & _ & Hb). exact Hb.
+  intros Hst n h x c. unfold blk_hc_linked. cbv zeta.
+  destruct (blk_guard x && horc_consistent (st n) h x) eqn:G; [|discriminate].
+  apply andb_true_iff in G. destruct G as [G Gc]. destruct (guard_facts x G) as (Gb & Gn).
+  destruct (Hst n) as (O1 & O2 & O3 & O4 & O5).
+  destruct (os_continue _ _ _ _ _) as [[ret consumed out hw c']|] eqn:E; [|discriminate].
+  intros H. destruct (blk_out_some _ _ _ H) as (Hp & ->).
+  apply (os_continue_bytes (ho_m (st n)) (ho_c (st n)) (ho_src (st n)) (len x) (len x - 1) ret consumed out hw c' O1 O2 O3 O4 ltac:(lia) ltac:(lia) E).
 Qed.
 
 Print Assumptions blk_hc_linked_contract.
